@@ -13,12 +13,13 @@ ID = "C13"
 CHECK_MODULE = "Deb822.RelationCheck"
 PROPS_FILE = "Props/C13.v"
 ANCHORS = [("lib/debian/deb822.py", ["PkgRelation"])]
-BUDGET = {"quick": 1600, "thorough": 24000}
+BUDGET = {"quick": 1600, "thorough": 16000}
 SHARD = 250
 RULE = ("45% relation structures: 1-3 conjuncts x 1-3 alternatives, every atom with a uniformly drawn subset of the "
         "four optional parts (arch qualifier, version constraint, architecture list, restriction formula), names / "
-        "versions / operators / architectures / profiles drawn from pools of ordinary and odd-but-valid values "
-        "(one-character names, '+', '.', '-', ':' and '~' in versions, negated architectures, several groups), absent "
+        "versions / operators / architectures / profiles drawn half from pools of ordinary and odd-but-valid values "
+        "(one-character names, '+', '.', '-', ':' and '~' in versions, negated architectures, several groups) and half "
+        "at random over the boundary characters of their class (a z A Z 0 9 and the punctuation the class allows), absent "
         "parts given as None or as a missing key; one in five structures is then broken in exactly one way (empty "
         "lists, upper-case or '<' ',' in a profile, blank in a name, '!' at the start of a plain name, ...) - outside "
         "the property's domain, compared with the model only.  20% free-form strings through parse_relations: wf "
@@ -72,18 +73,45 @@ def _sanitize(s):
 # ---------------------------------------------------------------------------
 # structures (JSON form): atom = {"name","aq","ver":[op,v]|None,"arch":[[en,a]..]|None,"restr":[[[en,p]..]..]|None}
 
+_ALNUM = "azAZ09bQ5"
+_NAME_CH = _ALNUM + ".+-"
+_AQ_CH = _ALNUM + "-"
+_VER_CH = _ALNUM + ":-+~."
+_ARCH_CH = "azAZ09_-!é٣ª"
+_PROFILE_CH = "az09!#$%&'()*+-./:;=?@[\\]^_`{}~\""
+
+
+def _word(rng, first, rest, lo=0, hi=5):
+    return rng.choice(first) + "".join(rng.choice(rest) for _ in range(rng.randint(lo, hi)))
+
+
+def _signed(rng, pool, chars):
+    """(enabled, text): from the pool, or random over the class; a plain name never starts with '!'."""
+    en = rng.random() < 0.5
+    if rng.random() < 0.5:
+        t = rng.choice(pool)
+    else:
+        t = _word(rng, chars, chars, 0, 4)
+    if en and t.startswith("!"):
+        t = "x" + t
+    return [en, t]
+
+
 def _atom(rng, mask=None):
     if mask is None:
         mask = rng.randrange(16)
-    a = {"name": rng.choice(NAMES), "aq": None, "ver": None, "arch": None, "restr": None}
+    h = lambda: rng.random() < 0.5
+    a = {"name": rng.choice(NAMES) if h() else _word(rng, _ALNUM, _NAME_CH), "aq": None, "ver": None,
+         "arch": None, "restr": None}
     if mask & 1:
-        a["aq"] = rng.choice(ARCHQUALS)
+        a["aq"] = rng.choice(ARCHQUALS) if h() else _word(rng, _ALNUM, _AQ_CH)
     if mask & 2:
-        a["ver"] = [rng.choice(OPS) if rng.random() < 0.85 else rng.choice(ODD_OPS), rng.choice(VERSIONS)]
+        a["ver"] = [rng.choice(OPS) if rng.random() < 0.85 else rng.choice(ODD_OPS),
+                    rng.choice(VERSIONS) if h() else _word(rng, _VER_CH, _VER_CH)]
     if mask & 4:
-        a["arch"] = [[rng.random() < 0.5, rng.choice(ARCHS)] for _ in range(rng.randint(1, 3))]
+        a["arch"] = [_signed(rng, ARCHS, _ARCH_CH) for _ in range(rng.randint(1, 3))]
     if mask & 8:
-        a["restr"] = [[[rng.random() < 0.5, rng.choice(PROFILES)] for _ in range(rng.randint(1, 3))]
+        a["restr"] = [[_signed(rng, PROFILES, _PROFILE_CH) for _ in range(rng.randint(1, 3))]
                       for _ in range(rng.randint(1, 3))]
     return a
 
